@@ -245,6 +245,11 @@ int KSI_TlvElement_serialize(const KSI_TlvElement *element, unsigned char *buf, 
 			if (res != KSI_OK) goto cleanup;
 
 			if (buf != NULL) {
+				if (buf_size < dat_len + tmpLen) {
+					res = KSI_BUFFER_OVERFLOW;
+					goto cleanup;
+				}
+
 				res = KSI_TlvElement_serialize(tmp, buf + buf_size - dat_len - tmpLen, tmpLen, NULL, KSI_TLV_OPT_NO_MOVE);
 				if (res != KSI_OK) goto cleanup;
 			}
